@@ -349,7 +349,8 @@ def main_check(spec, tier, master):
     if errors:
         print("HARNESS-ERROR: %d runs raised inside the harness; first:\n%s" % (len(errors), errors[0][1]))
         rc = 2
-    if fresh and rc == 0:
+    if fresh:
+        # (a violation is reported even if other runs of the batch crashed the harness: it is the more useful answer)
         v = fresh[0]
         print("violation found: run %d build %s :: %s :: %s" % (v["run_index"], v["build"], v["check"], v["detail"][:500]))
         mplan = minimise(spec, pools, v["build"], v["plan"], v["check"])
